@@ -15,7 +15,9 @@ def layout():
     c = forest.INIT_COUNTS
     return st.fixed_dictionaries(
         {
-            "mod": col(c["mod"], c["ir"]),
+            # most modules start in IR 0, so that ir.modules is long enough for
+            # index / slice operations to have interior positions
+            "mod": st.lists(st.one_of(st.just(0), st.just(0), st.integers(0, c["ir"] - 1), st.just(-1)), min_size=c["mod"], max_size=c["mod"]),
             "sec": col(c["sec"], c["mod"]),
             "bi": col(c["bi"], c["sec"]),
             "blk": col(c["blk"], c["bi"]),
@@ -89,6 +91,10 @@ def op_strategies(set_funcs=SET_FUNCS, list_funcs=LIST_FUNCS, symbols=False, loa
     return ops
 
 
+FOCUS = [["list.", "listq.", "new"], ["set.", "setq.", "setparent"], ["setparent", "new", "load"],
+         ["rename", "payload", "newsym", "symparent", "refparent"]]
+
+
 def cases(max_len=40, **kw):
     ops = op_strategies(**kw)
-    return st.fixed_dictionaries({"layout": layout(), "ops": progs.programs(ops, max_len=max_len)})
+    return st.fixed_dictionaries({"layout": layout(), "ops": progs.programs(ops, max_len=max_len, focus=FOCUS)})
